@@ -244,6 +244,30 @@ claim('C10',
       'are on in 70 % of the runs, spectra are optionally shifted positive, small bond dimensions, few Lanczos iterations, '
       'repeated invocations.',
       'Mode-N bounds 1e-9 ||H|| (consistency 1e-8, exactness 1e-7); frame inspection for site indices.')
+claim('C02',
+      'TLC model checking of operation histories in Sector.tla (negative control reproducing finding F3) + TLC trace '
+      'validation (TraceSector.tla) of random real histories: the invariants are evaluated on the projection of EVERY live '
+      'object after EVERY public call',
+      'The property quantifies over histories. The model enumerates all histories of bounded depth over the operation '
+      'alphabet (kind of container, boundary charges, raise on a valid object); the charge algebra of each factorization is '
+      'model checked in BondOps.tla / Canon.tla. Real histories of 7-15 operations on the same objects (construction, '
+      'orthonormalize, compress, +, -, @, apply, from_vector on compressible vectors, Hamiltonian constructors incl. encoded '
+      'Fermi-Hubbard charges, graph-to-MPO conversion, split/merge, TDVP and DMRG with quantum numbers on, truncating two-site '
+      'variants, non-zero leading charges) are validated state by state: list lengths = tensor dimensions, additive rule on '
+      'every tensor (own mask code), total charges of non-zero states unchanged by in-place algorithms, no exception.',
+      'Sparsity enters as a flag computed by the harness (independent mask code); lengths, pool bookkeeping, boundary '
+      'charges compared by TLC.')
+claim('C19',
+      'TLC model checking of the ownership rules Heap.tla (NoSharing, Frozen; negative control with a dropped copy) + TLC '
+      'trace validation (TraceHeap.tla) of random real histories with byte-level digests of all live objects before / after '
+      'every call, pairwise memory-sharing analysis, and in-place pokes of every fresh result',
+      'Every public operation used in the histories is catalogued as pure / fresh / in-place(target); after each call the '
+      'set of objects whose SHA-256 digest changed must be within {target}, no two distinct objects may share a NumPy buffer, '
+      'a container or a graph node / edge record, and after every fresh result each of its buffers is perturbed in place '
+      '(plus zero_qnumbers) while all other objects are re-digested - which is how a dropped .copy() of boundary charges, a '
+      'constructor keeping the caller\'s qd array, or an in-place update of the Hamiltonian surface.',
+      'Dense conversion results are excluded from NoSharing (the property does not forbid views); catalogue = the '
+      'operations exercised by harness/histgen.py.')
 
 def main():
     props = [json.loads(l) for l in open(os.path.join(VERIF, 'properties.jsonl'))]
